@@ -1004,6 +1004,40 @@ Section EnvelopeProofs.
     destruct kw as [[|x l]|]; reflexivity.
   Qed.
 
+  (* the decorator path and the constructor path yield the same envelope for the same
+     function value; the value at decoration time plays no role *)
+  Lemma decorated_is_constructor c f_dec fn args kw :
+    decorated_call func blob wire ser_obj ser_bson c f_dec fn args kw
+    = python_task func blob wire ser_obj ser_bson c fn args (Some kw).
+  Proof. unfold decorated_call, python_task. destruct c; [|reflexivity]. destruct kw; reflexivity. Qed.
+
+  Lemma encode_step_decor_irrelevant c f_dec f_dec' s :
+    encode_step func blob wire ser_obj ser_bson true c f_dec s
+    = encode_step func blob wire ser_obj ser_bson true c f_dec' s.
+  Proof. reflexivity. Qed.
+
+  Lemma encode_step_paths_agree c f_dec s :
+    encode_step func blob wire ser_obj ser_bson true c f_dec s
+    = encode_step func blob wire ser_obj ser_bson false c f_dec s.
+  Proof.
+    unfold encode_step. rewrite decorated_is_constructor. unfold python_task, kw_or_empty.
+    destruct c; [|reflexivity]. destruct (st_kw s) as [[|x l]|]; reflexivity.
+  Qed.
+
+  (* every task of a sequence decodes to the function value it had when THAT task was
+     created, with its arguments -- on both paths *)
+  Lemma transport_seq_roundtrip decor f_dec steps :
+    transport_seq func blob wire ser_obj deser_obj ser_bson deser_bson decor true f_dec steps
+    = map (fun s => inr (st_f s, st_args s, Some (kw_or_empty (st_kw s)))) steps.
+  Proof.
+    unfold transport_seq. apply map_ext. intro s.
+    assert (E : encode_step func blob wire ser_obj ser_bson decor true f_dec s
+                = inr (ser_bson (mkEnv (ser_obj (st_f s)) (st_args s) (Some (kw_or_empty (st_kw s)))))).
+    { destruct decor; [rewrite encode_step_paths_agree|]; unfold encode_step, python_task, kw_or_empty;
+        destruct (st_kw s) as [[|x l]|]; reflexivity. }
+    rewrite E. unfold get_func_attr. rewrite bson_inverse. simpl. rewrite obj_inverse. reflexivity.
+  Qed.
+
   Lemma transport_not_callable fn args kw :
     transport func blob wire ser_obj deser_obj ser_bson deser_bson false fn args kw = inl ValueError.
   Proof. reflexivity. Qed.
